@@ -51,8 +51,14 @@ def run(tier, seed, replay):
                        '[.[] | . as {$t, $f} | try ($t | capture("(?<x>b+)"; $f)) catch "err"]', '[.[] | .t | test("b"), test("B"; "i"), test("b"; "g")]']
             special = [(p, i, o) for p in bigprogs for i in bigin for o in [r.choice(bigin)]] + [(p, i, o) for p in addprogs for i in addin for o in [r.choice(addin)]]
             special += [(p, jqgen.V(a), jqgen.V(b)) for p in reprogs for a, b in ((reY, reX), (reX, reY), (reY, reY))]
+            # (pattern, flags) pairs that a sloppy cache key would confuse: the same text split differently, flags added by the jq definitions (gsub adds "g")
+            coll = [(["xa", "ai", None], ["A", "a", "i"]), (["A", "a", "i"], ["xa", "ai", None]), (["xag", "ag", None], ["aXa", "a", "g"]), (["b", "b", "gi"], ["big", "bgi", None]), (["ab", "a", ""], ["ab", "", "a"]),
+                    (["hello log", "log", None], ["hello lo", "lo", "g"]), (["x", "", "x"], ["x", "x", None]), (["aib", "a", "i"], ["aib", "ai", None]), (["m", "m", None], ["M", "", "m"])]
+            cprogs = ['. as [$s, $re, $flags] | $s | try test($re; $flags) catch "err"', '. as [$s, $re, $flags] | $s | try [match($re; $flags).string] catch "err"', '. as [$s, $re, $flags] | $s | try gsub($re; "-") catch "err"',
+                      '. as [$s, $re, $flags] | $s | try [scan($re)] catch "err"', '. as [$s, $re, $flags] | $s | try sub($re; "-"; $flags) catch "err"', '. as [$s, $re, $flags] | $s | try [splits($re; $flags)] catch "err"']
+            special += [(p, jqgen.V(a), jqgen.V(b)) for p in cprogs for a, b in coll]
             if quick:
-                special = r.sample(special, min(len(special), 260))
+                special = r.sample(special, min(len(special), 320))
             for p, i, o in special:
                 cases.append({"id": len(cases), "src": p, "input": i, "other": o, "mode": r.choice(MODES), "vars": [r.choice(bigin + addin), r.choice(bigin + addin)] if "$v" in p else []})
             cor = evalfam.corpus_cases(work, vh)
